@@ -112,6 +112,10 @@ func writeJSON(path string, v interface{}) {
 }
 
 func main() {
+	if len(os.Args) >= 2 && os.Args[1] == "deepnest" {
+		cmdDeepNest(os.Args[2:])
+		return
+	}
 	debug.SetMaxStack(256 << 20) // a runaway recursion in the library fails fast instead of eating 1 GB
 	if len(os.Args) < 2 {
 		fmt.Println("usage: harness <eval|codec|micro|history|race|c14|c20|replay> ...")
